@@ -145,6 +145,21 @@ func (h *NFSProcedureHandler) handleCreate(body io.Reader, reply *RPCReply, auth
 		return reply, nil
 	}
 
+	// Give the new file the caller's effective identity (or the explicit sattr3
+	// owner when the caller is root), as MKDIR and SYMLINK do
+	if err := h.server.handler.fs.Chown(path.Join(node.path, name), int(newUID), int(newGID)); err != nil {
+		if h.server.options.Debug {
+			h.server.logger.Printf("CREATE: Chown failed for '%s': %v", path.Join(node.path, name), err)
+		}
+	} else {
+		newNode.mu.Lock()
+		if newNode.attrs != nil {
+			newNode.attrs.Uid = newUID
+			newNode.attrs.Gid = newGID
+		}
+		newNode.mu.Unlock()
+	}
+
 	dirPostAttrs, err := h.server.handler.GetAttr(node)
 	if err != nil {
 		return nfsErrorWithWcc(reply, mapError(err)), nil
